@@ -32,6 +32,7 @@ DECIDED = [
     "TAB-1 every DType member has <name>_get/_set converters in dtypes or is a documented string kind",
     "RET-1 every converter returns the python type of its dtype (dates/times built by strptime with second resolution formats)",
     "ATOM (values/dtype) a refused value edit leaves _values and _dtype as they were; HANDLER-1 rollback handlers catch everything",
+    'REGEX-2 every regular expression valid_type applies to the dtype name spans the whole name (fullmatch, or anchored for the method used)',
 ]
 NOT_DECIDED = ["acceptance set of each converter", "normal forms / idempotence of get(set(v))", "odml_tuple_import heuristics",
                "strict vs non-strict acceptance in extend/append/insert"]
